@@ -29,7 +29,7 @@ Rust equality of `TngComp` (arcs up to reversal, circles up to rotation/reflecti
 
 Engine requests (model `Yuiv/Model/C05Engine.lean`; STATEFUL: the driver keeps numbered slots holding a `TngComplex`
 over ℤ; `handleSt` threads the session through the lines of one run, `eg new` empties it):
-`eg new` · `eg init S h t dh dq bp|-` · `eg app S X|Xm|V|H e0 e1 e2 e3` · `eg con S S'` (S' is consumed) ·
+`eg new [Z|Q|F2|F3]` (the coefficient ring of the script; ℚ as `n/d`, 𝔽₃ as `0..2`) · `eg init S h t dh dq bp|-` · `eg app S X|Xm|V|H e0 e1 e2 e3` · `eg con S S'` (S' is consumed) ·
 `eg dl S KEY r` · `eg el S KEY KEY` · `eg q S` · `eg fin S red ref | LINK`.
 KEY = `<state bits>.<label X/I>`.  Reply of a state-changing request: `panic` / `err`, or
 `[upd=KEY,KEY ]nv=<#vertices> ne=<#edges> wf=<0|1|-> h=<FNV-1a-64 of the canonical state text>[ <state text>]`
@@ -393,18 +393,73 @@ open Tngd
 namespace Eng
 open Yuiv.C05.Tng Yuiv.C05.Engine Yuiv.C05.Deloop Tngd
 
-abbrev C := Cx (LcCob Int)
+/-- text form and reference data of a coefficient ring -/
+class RingIO (R : Type) extends CoefU R where
+  parse? : String → Option R
+  txt : R → String
+  /-- the ring as a parameter of the reference (`KhRef.Coeff`) -/
+  coeff : KhRef.Coeff
+  /-- integer entries with the same rank: the differential of ONE generator may be scaled by a non-zero factor -/
+  toIntRow : List R → List Int
+  /-- integer parameters `(h', t')` whose cube of resolutions has the same homology over the ring:
+  the substitution `X = X'/N` turns `X² = hX + t` into `X'² = (N h) X' + N² t` (ℤ, 𝔽p: the representatives) -/
+  refParams : R → R → Int × Int
 
-structure Slot where
-  h : Int
-  t : Int
-  cx : C
+instance : RingIO Int where
+  parse? := parseInt?
+  txt := toString
+  coeff := .Z
+  toIntRow l := l
+  refParams h t := (h, t)
 
-abbrev Sess := List (Nat × Slot)
+def parseRat? (s : String) : Option Rat :=
+  match s.splitOn "/" with
+  | [n] => (parseInt? n).map (fun (x : Int) => (x : Rat))
+  | [n, d] => do
+    let n ← parseInt? n; let d ← parseNat? d
+    if d == 0 then none else some ((n : Rat) / ((d : Int) : Rat))
+  | _ => none
 
-def Sess.get? (s : Sess) (i : Nat) : Option Slot := s.lookup i
-def Sess.set (s : Sess) (i : Nat) (x : Slot) : Sess := (i, x) :: s.filter (fun p => p.1 != i)
-def Sess.del (s : Sess) (i : Nat) : Sess := s.filter (fun p => p.1 != i)
+instance : RingIO Rat where
+  parse? := parseRat?
+  txt q := s!"{q.num}/{q.den}"
+  coeff := .Q
+  toIntRow l :=
+    let n : Nat := l.foldl (fun acc q => Nat.lcm acc q.den) 1
+    l.map (fun q => q.num * ((n / q.den : Nat) : Int))
+  refParams h t :=
+    let n : Nat := Nat.lcm h.den t.den
+    (h.num * ((n / h.den : Nat) : Int), t.num * ((n * n / t.den : Nat) : Int))
+
+instance : RingIO F2 where
+  parse? s := if s == "0" then some ⟨false⟩ else if s == "1" then some ⟨true⟩ else none
+  txt a := if a.v then "1" else "0"
+  coeff := .Fp 2
+  toIntRow l := l.map (fun a => if a.v then 1 else 0)
+  refParams h t := (if h.v then 1 else 0, if t.v then 1 else 0)
+
+instance : RingIO F3 where
+  parse? s := (parseNat? s).bind (fun n => if n < 3 then some ⟨n⟩ else none)
+  txt a := toString (a.v % 3)
+  coeff := .Fp 3
+  toIntRow l := l.map (fun a => ((a.v % 3 : Nat) : Int))
+  refParams h t := (((h.v % 3 : Nat) : Int), ((t.v % 3 : Nat) : Int))
+
+structure Slot (R : Type) where
+  h : R
+  t : R
+  cx : Cx (LcCob R)
+
+abbrev SessOf (R : Type) := List (Nat × Slot R)
+
+/-- the session: one coefficient ring per script (`eg new <ring>`) -/
+inductive Sess where
+  | z (s : SessOf Int)
+  | q (s : SessOf Rat)
+  | f2 (s : SessOf F2)
+  | f3 (s : SessOf F3)
+
+instance : Inhabited Sess := ⟨.z []⟩
 
 def keyStr (k : TKey) : String :=
   String.ofList (k.state.map (fun b => if b then '1' else '0')) ++ "." ++
@@ -420,18 +475,9 @@ def parseKey? (s : String) : Option TKey :=
 
 def sortStrs (l : List String) : List String := (l.toArray.qsort (· < ·)).toList
 
-def lcText (f : LcCob Int) : String :=
-  if f.isEmpty then "0" else String.intercalate "|" (sortStrs (f.map (fun p => s!"{p.2}*{cobStr p.1}")))
-
 def optNatStr : Option Nat → String
   | some e => toString e
   | none => "-"
-
-def stateText (cx : C) : String :=
-  let vs := sortStrs (cx.verts.map (fun v => s!"{keyStr v.1}:{tngStr v.2}"))
-  let es := sortStrs (cx.edges.map (fun e =>
-    s!"{keyStr e.1.1}>{keyStr e.1.2}:{lcText e.2}{if lcIsInvertible e.2 then "!" else ""}"))
-  s!"sh={cx.dh},{cx.dq} bp={optNatStr cx.base} n={cx.dim} V={String.intercalate ";" vs} E={String.intercalate ";" es}"
 
 def fnv64 (s : String) : UInt64 :=
   s.toUTF8.foldl (fun h b => (h ^^^ b.toUInt64) * 0x100000001b3) 0xcbf29ce484222325
@@ -440,16 +486,45 @@ def textLimit : Nat := 1200
 /-- the well-formedness flag is only evaluated on complexes with at most this many vertices (`-` otherwise) -/
 def wfLimit : Nat := 24
 
-def dump (cx : C) : String :=
+def refTables (l : KhRef.Link) (h t : Int) (k : KhRef.Coeff) (red bigraded : Bool) : String × String :=
+  match KhRef.crossingSigns l with
+  | none => ("err-signs", "err-signs")
+  | some sg =>
+    let one := fun (bg : Bool) =>
+      match KhRef.khHomology l sg ⟨h, t, red⟩ k bg with
+      | .ok res => cellsStr res
+      | .error .malformed => "err-malformed"
+      | .error .notComplex => "err-notcomplex"
+    (one false, if bigraded then one true else "-")
+
+section ring
+variable {R : Type} [RingIO R]
+
+def SessOf.get? (s : SessOf R) (i : Nat) : Option (Slot R) := s.lookup i
+def SessOf.set (s : SessOf R) (i : Nat) (x : Slot R) : SessOf R := (i, x) :: s.filter (fun p => p.1 != i)
+def SessOf.del (s : SessOf R) (i : Nat) : SessOf R := s.filter (fun p => p.1 != i)
+
+def lcText (f : LcCob R) : String :=
+  if f.isEmpty then "0" else String.intercalate "|" (sortStrs (f.map (fun p => s!"{RingIO.txt p.2}*{cobStr p.1}")))
+
+def stateText (cx : Cx (LcCob R)) : String :=
+  let vs := sortStrs (cx.verts.map (fun v => s!"{keyStr v.1}:{tngStr v.2}"))
+  let es := sortStrs (cx.edges.map (fun e =>
+    s!"{keyStr e.1.1}>{keyStr e.1.2}:{lcText e.2}{if lcIsInvertible e.2 then "!" else ""}"))
+  s!"sh={cx.dh},{cx.dq} bp={optNatStr cx.base} n={cx.dim} V={String.intercalate ";" vs} E={String.intercalate ";" es}"
+
+def dump (cx : Cx (LcCob R)) : String :=
   let txt := stateText cx
   let w := if cx.verts.length ≤ wfLimit then b01 cx.wfCheck else "-"
   let head := s!"nv={cx.verts.length} ne={cx.edges.length} wf={w} h={(fnv64 txt).toNat}"
   if txt.length ≤ textLimit then head ++ " " ++ txt else head
 
-def ops (s : Slot) : EdgeOps (LcCob Int) := lcOps s.h s.t
+def ops (s : Slot R) : EdgeOps (LcCob R) := lcOps s.h s.t
 
-/-- homology tables of the model's chain complex -/
-def chainTables (cd : ChainData) (bigraded : Bool) : String × String := Id.run do
+/-- homology tables of the model's chain complex over the ring (ranks from the Smith invariants of integer
+matrices of the same rank; torsion only over ℤ) -/
+def chainTables (cd : ChainData R) (bigraded : Bool) : String × String := Id.run do
+  let k : KhRef.Coeff := RingIO.coeff R
   -- ids
   let mut idx : Std.HashMap String Nat := {}
   let mut qOf : Array Int := #[]
@@ -462,17 +537,22 @@ def chainTables (cd : ChainData) (bigraded : Bool) : String × String := Id.run 
       qOf := qOf.push q
       row := row.push ⟨id, 0⟩
     gens := gens.push row
-  let mut dmap : Std.HashMap Nat (Array KhRef.Term) := {}
+  -- the differential of every generator, scaled to integers
+  let mut dR : Std.HashMap Nat (List (Nat × R)) := {}
   let mut bad := false
   for ds in cd.d do
     for (k, l, v) in ds do
       match idx.get? (keyStr k), idx.get? (keyStr l) with
-      | some a, some b => dmap := dmap.insert a (((dmap.get? a).getD #[]).push (⟨b, 0⟩, v))
+      | some a, some b => dR := dR.insert a ((b, v) :: (dR.get? a).getD [])
       | _, _ => bad := true
   if bad then return ("err-gen", "err-gen")
-  let d : KhRef.Gen → Array KhRef.Term := fun g => (dmap.get? g.s).getD #[]
+  let mut dmap : Std.HashMap Nat (Array KhRef.Term) := {}
+  for (a, row) in dR.toList do
+    let ints := RingIO.toIntRow (row.map (·.2))
+    dmap := dmap.insert a ((List.zip (row.map (·.1)) ints).map (fun (b, v) => ((⟨b, 0⟩ : KhRef.Gen), v))).toArray
+  let d : KhRef.Gen → Array KhRef.Term := fun g => ((dmap.get? g.s).getD #[]).filter (fun (_, v) => v != 0)
   let mut cells : Array (Int × Option Int × KhRef.Group) := #[]
-  let hs := KhRef.homologyOf .Z gens d
+  let hs := KhRef.homologyOf k gens d
   for i in [0:hs.size] do
     let g := hs[i]!
     if g.rank != 0 || g.tors.size != 0 then cells := cells.push (cd.imin + i, none, g)
@@ -487,36 +567,24 @@ def chainTables (cd : ChainData) (bigraded : Bool) : String × String := Id.run 
     for gs in gq do
       for g in gs do
         if (d g).any (fun (y, _) => qOf[y.s]! != q) then return (plain, "err-q")
-    let hq := KhRef.homologyOf .Z gq d
+    let hq := KhRef.homologyOf k gq d
     for i in [0:hq.size] do
       let g := hq[i]!
       if g.rank != 0 || g.tors.size != 0 then bcells := bcells.push (cd.imin + i, some q, g)
   return (plain, cellsStr ⟨bcells⟩)
 
-def refTables (l : KhRef.Link) (h t : Int) (red bigraded : Bool) : String × String :=
-  match KhRef.crossingSigns l with
-  | none => ("err-signs", "err-signs")
-  | some sg =>
-    let one := fun (bg : Bool) =>
-      match KhRef.khHomology l sg ⟨h, t, red⟩ .Z bg with
-      | .ok res => cellsStr res
-      | .error .malformed => "err-malformed"
-      | .error .notComplex => "err-notcomplex"
-    (one false, if bigraded then one true else "-")
-
-def resDump (sess : Sess) (i : Nat) (s : Slot) (pre : String) : Res C → Sess × String
+def resDump (sess : SessOf R) (i : Nat) (s : Slot R) (pre : String) : Res (Cx (LcCob R)) → SessOf R × String
   | .ok cx => (sess.set i { s with cx := cx }, pre ++ dump cx)
   | .panic => (sess, "panic")
   | .err => (sess, "err")
 
-def handle (sess : Sess) (ts : List String) : Option (Sess × String) := do
+def handleR (sess : SessOf R) (ts : List String) : Option (SessOf R × String) := do
   match ts with
-  | ["new"] => some ([], "ok")
   | ["init", i, h, t, dh, dq, bp] =>
-    let i ← parseNat? i; let h ← parseInt? h; let t ← parseInt? t
+    let i ← parseNat? i; let h ← RingIO.parse? h; let t ← RingIO.parse? t
     let dh ← parseInt? dh; let dq ← parseInt? dq
     let bp ← if bp == "-" then some none else (parseNat? bp).map some
-    let cx : C := Cx.init dh dq bp
+    let cx : Cx (LcCob R) := Cx.init dh dq bp
     some (sess.set i ⟨h, t, cx⟩, dump cx)
   | ["q", i] =>
     let i ← parseNat? i
@@ -558,11 +626,12 @@ def handle (sess : Sess) (ts : List String) : Option (Sess × String) := do
     if !restL.isEmpty then none
     match sess.get? i with
     | some s =>
-      match s.cx.toChain (lcEval s.h s.t) with
+      match s.cx.toChain (lcEval s.h s.t) Coef.isZero with
       | .ok cd =>
-        let bg := s.h == 0 && s.t == 0
+        let bg := Coef.isZero s.h && Coef.isZero s.t
         let (m, bm) := chainTables cd bg
-        let (r, br) := if wref == 1 then refTables l s.h s.t (red == 1) bg else ("-", "-")
+        let (h', t') := RingIO.refParams s.h s.t
+        let (r, br) := if wref == 1 then refTables l h' t' (RingIO.coeff R) (red == 1) bg else ("-", "-")
         let gens := String.intercalate "," (cd.gens.map (fun g => toString g.length))
         let base := s!"gens={gens} mat={m} ref={r}"
         some (sess.del i, if bg then base ++ s!" bmat={bm} bref={br}" else base)
@@ -570,6 +639,21 @@ def handle (sess : Sess) (ts : List String) : Option (Sess × String) := do
       | .err => some (sess.del i, "err")
     | none => some (sess, "no-slot")
   | _ => none
+
+end ring
+
+def handle (sess : Sess) (ts : List String) : Option (Sess × String) :=
+  match ts with
+  | ["new"] | ["new", "Z"] => some (.z [], "ok")
+  | ["new", "Q"] => some (.q [], "ok")
+  | ["new", "F2"] => some (.f2 [], "ok")
+  | ["new", "F3"] => some (.f3 [], "ok")
+  | _ =>
+    match sess with
+    | .z s => (handleR s ts).map (fun (s', r) => (.z s', r))
+    | .q s => (handleR s ts).map (fun (s', r) => (.q s', r))
+    | .f2 s => (handleR s ts).map (fun (s', r) => (.f2 s', r))
+    | .f3 s => (handleR s ts).map (fun (s', r) => (.f3 s', r))
 
 end Eng
 
